@@ -190,6 +190,17 @@ def weak_in_pattern_rows(c):
     return out
 
 
+def cancelled_rows(c):
+    """F rows whose diagonal equals minus the sum of their weak (non-strong) off-diagonal entries: the modified diagonal of the
+       extended (+i) formula is exactly zero there when no strong F neighbour contributes (KF-C12-seq-extended-zero-diagonal)"""
+    ms_ = set(c["mask"]); out = set()
+    for i, r in enumerate(c["rows"]):
+        if c["states"][i] != 0: continue
+        weak = -sum(v for (j, v) in r if j != i and (i, j) not in ms_)
+        if weak > 0 and dict(r).get(i) == weak: out.add(i)
+    return out
+
+
 def oracle(ctx, c, P, which):
     """P: rows of (coarse col, value token). Clauses of C12 on one implementation output."""
     sig = "interp:%s:%s" % (c["kind"], which)
@@ -205,7 +216,8 @@ def oracle(ctx, c, P, which):
         for (cc, tok) in P[i]:
             v = nums.parse_num(tok)
             if isinstance(v, str):
-                ctx.signal("O", sig + ":finite", "row %d has a non-finite weight %s" % (i, tok), case=c["line"]); return False
+                kf = ":cancelled_diagonal" if (which == "seq" and c["kind"] == "extended" and i in cancelled_rows(c)) else ""
+                ctx.signal("O", sig + ":finite" + kf, "row %d has a non-finite weight %s" % (i, tok), case=c["line"]); return False
             vals.append((cc, v))
         if states[i] == 1:
             if len(vals) != 1 or vals[0][0] != rk[i] or vals[0][1] != 1:
@@ -308,6 +320,17 @@ def run(ctx):
                     # points (as hypre does), which is outside the 0/1 splittings the property quantifies over
                     has = set(i for (i, j) in x["mask"])
                     c["states"] = [(-2 if (s_ == 0 and i not in has and rng.random() < 0.7) else s_) for i, s_ in enumerate(x["states"])]
+                if kind == "extended" and x["nv"] == 1 and rng.random() < 0.3:
+                    # M-matrix-like but NOT diagonally dominant: on some F rows the diagonal equals minus the sum of the weak
+                    # (non-strong) entries, so the modified diagonal of the +i formula cancels to exactly zero when no strong
+                    # F neighbour contributes; the weights must stay finite (the routine leaves such a row unscaled)
+                    ms_ = set(x["mask"]); rows2 = []; hit = 0
+                    for i, r in enumerate(x["rows"]):
+                        weak = -sum(v for (j, v) in r if j != i and (i, j) not in ms_)
+                        if x["states"][i] == 0 and weak > 0 and any((i, j) in ms_ for (j, v) in r) and rng.random() < 0.5:
+                            rows2.append([(j, (weak if j == i else v)) for (j, v) in r]); hit += 1
+                        else: rows2.append(r)
+                    if hit: c["rows"] = rows2; ctx.count("cancelled_diagonal_cases")
                 c["line"] = impl_line(c); cases.append(c)
                 if kind == "direct":
                     # directed: an F point without strong connections (NoNeighbors) that another F point strongly depends on,
@@ -432,6 +455,9 @@ def judge(ctx, c, rm):
             try: r = int(why.split(":")[0].split()[1])
             except Exception: r = -1
             if r in weak_in_pattern_rows(c): cause = ":weak_in_pattern"
+            if 0 <= r < len(c["Pseq"]) and r in cancelled_rows(c) and any(isinstance(nums.parse_num(t_), str) for _, t_ in c["Pseq"][r]) \
+               and all(not isinstance(nums.parse_num(t_), str) for _, t_ in c["Ppar"][r]):
+                cause = ":cancelled_diagonal"      # sequential routine divides by the zero modified diagonal, the distributed one does not
         ctx.signal("O", sig + ":partition" + cause, "sequential and distributed operators differ (partition %s): %s" % (cuts, why), case=c["line"])
     # K: model vs implementation
     if not rm:
